@@ -12,6 +12,29 @@ import os
 import typing as ty
 from pathlib import Path
 
+import contextlib
+import shutil
+import tempfile
+
+
+@contextlib.contextmanager
+def private_hash_cache():
+    """point pydra's persistent file-hash cache (documented PYDRA_HASH_CACHE variable) at a scratch
+    directory for the duration of a check: the user's ~/.cache is neither read nor filled, and
+    Submitter.__call__'s clean-up pass does not have to stat tens of thousands of unrelated entries"""
+    old = os.environ.get("PYDRA_HASH_CACHE")
+    d = tempfile.mkdtemp(prefix="vf_hashcache_")
+    os.environ["PYDRA_HASH_CACHE"] = d
+    try:
+        yield d
+    finally:
+        if old is None:
+            os.environ.pop("PYDRA_HASH_CACHE", None)
+        else:
+            os.environ["PYDRA_HASH_CACHE"] = old
+        shutil.rmtree(d, ignore_errors=True)
+
+
 # ======================================================================================
 # 1. file trees on disk (shared by C33 / C34)
 # ======================================================================================
